@@ -8,7 +8,7 @@ from . import base
 TRUSTED_BASE = base.TRUSTED_BASE + ['np.binary_repr / str.format("X") / np.base_repr / int(str, base) are modelled by digit-list functions (Model/Digits.lean)']
 ASSUMPTIONS = base.ASSUMPTIONS + ['strings fed back to constructor/call/set_val carry the 0b / 0x prefix (an unprefixed digit string is a decimal numeral for those routes); from_bin takes the unprefixed rendering',
                                   '2-D renderings are fed back as nested lists / string arrays (np.array(x.bin()))']
-RULE = ('SB/SH/SR: rendering of all codes for n_word<=6 (quick) / <=8 (thorough), all n_frac 0..n_word, with and without binary point and prefix; boundary/random codes for n_word up to 256; scalars, 1-D and 2-D arrays. '
+RULE = ('SB/SH/SR: rendering of all codes for n_word<=6 (quick) / <=8 (thorough), all n_frac 0..n_word, with and without binary point and prefix; boundary/random codes for n_word up to 256; scalars, 1-D and 2-D arrays (row-major, transposed and column-major). '
         'SP: render on the implementation, feed back by constructor/call/set_val/from_bin (method and function) in value mode (n_word<=53) and raw mode (to 256 bits), n_word>=2; '
         'non-trivial = negative code, or n_frac>0, or n_word not a multiple of 4 (hex)')
 TECHNIQUE = 'Lean 4 theorems (bin = n_word two\'s-complement digits of the code, point position, hex = same pattern in ceil(n/4) digits, base_repr sign-magnitude, render->parse round trips for every code of every format) + differential correspondence'
@@ -25,6 +25,14 @@ def mkx(codes, shape, s, n, f):
     arr = np.array(codes, dtype=object) if big else np.array(codes, dtype=np.int64)
     if shape == 2:
         arr = arr.reshape(2, -1)
+    elif shape == 3:
+        # the same logical (2, k/2) array, reached by transposing: column-major in memory
+        t = Fxp(np.ascontiguousarray(arr.reshape(2, -1).T), s, n, f, raw=True)
+        x = [lambda: t.T, lambda: t.transpose(), lambda: np.transpose(t)][len(codes) % 3]()
+        assert x.shape == (2, len(codes) // 2)
+        return x
+    elif shape == 4:
+        arr = np.asfortranarray(arr.reshape(2, -1))
     return Fxp(arr, s, n, f, raw=True)
 
 
@@ -98,7 +106,7 @@ def exec_SP(t):
             r = x.hex()
         else:
             r = x.bin(frac_dot=(kind == 'bindot'), prefix=(None if frombin else '0b'))
-        if shape == 2:
+        if shape >= 2:
             r = np.array(r).tolist() if route != 'ctor' else np.array(r)
         if route == 'ctor':
             y = Fxp(r, s, n, f, raw=raw)
@@ -163,8 +171,8 @@ def generate(tier, rng):
         s = rng.random() < 0.5
         n = rng.choice([2, 7, 8, 9, 12, 15, 16, 17, 31, 32, 33, 52, 53, 63, 64, 65, 72, 100, 127, 128, 129, 200, 255, 256] + [rng.randint(2, 256)])
         f = rng.choice([0, 1, n // 2, n - 1, n, rng.randint(0, n)])
-        shape = rng.choice([0, 0, 1, 2])
-        k = 1 if shape == 0 else (rng.choice([2, 3]) if shape == 1 else 4)
+        shape = rng.choice([0, 0, 1, 2, 3, 4])     # 3: transposed (column-major) 2-D history, 4: column-major constructor input
+        k = 1 if shape == 0 else (rng.choice([2, 3]) if shape == 1 else rng.choice([4, 6]))
         codes = pick_codes(rng, s, n, k)
         what = rng.random()
         if what < 0.25:
